@@ -431,10 +431,18 @@ func (a *App) Run(w Widget) error {
 					return err
 				}
 			case vaxis.FocusIn:
+				// Nothing to do if some widget is already entered.
+				// We remember the root as entered, so that it gets
+				// its MouseLeave when the mouse moves or the focus
+				// leaves again
+				if len(mh.lastHits) > 0 {
+					break
+				}
 				cmd, err := w.HandleEvent(MouseEnter{}, TargetPhase)
 				if err != nil {
 					return err
 				}
+				mh.lastHits = []hitResult{{w: w}}
 				a.handleCommand(cmd)
 			case vaxis.FocusOut:
 				mh.mouse = nil
